@@ -48,6 +48,7 @@ class C15(Property):
         ("antismash/common/secmet/record.py", "Record.get_cds_features_within_location"),
         ("antismash/common/secmet/record.py", "Record.get_cds_features"),
         ("antismash/common/secmet/features/feature.py", "Feature.crosses_origin"),
+        ("antismash/common/secmet/features/feature.py", "Feature.__lt__"),
         ("antismash/common/secmet/locations.py", "location_bridges_origin"),
     ]
     RULE = ("scan: DNA built from planted start/stop codons, random triplets and single frame-shifting bases over "
@@ -685,7 +686,8 @@ class C15(Property):
         feats = obs["features"]
         if model is None:
             return Judgement(False, True, detail=f"model predicts an assertion failure, implementation returned {feats}")
-        canon = lambda items: sorted((_loc_key(i["loc"]), i["label"]) for i in items)  # noqa: E731
+        # `return sorted(new_features)`: the order is part of the observable (Feature.__lt__, stable)
+        canon = lambda items: [(_loc_key(i["loc"]), i["label"]) for i in items]  # noqa: E731
         corr = canon(feats) == canon(model) and lookup_ok
         if corr:   # the modelled translation (null = ambiguity codes, left to Biopython) of every location
             want = {_loc_key(m["loc"]): m["translation"] for m in model}
